@@ -61,7 +61,7 @@ func CStrDup(s String) *int8 {
 
 func StringSlice(base String, i, j int) String {
 	if i < 0 || j < i || j > base.len {
-		panic("string slice index out of bounds")
+		panic(errorString("string slice index out of bounds"))
 	}
 	if i < base.len {
 		return String{c.Advance(base.data, i), j - i}
